@@ -34,3 +34,25 @@ Proof.
   specialize (H a (nrange_In _ _ Ha)). rewrite forallb_forall in H.
   apply H, nrange_In, Hb.
 Qed.
+
+(* Sweep over [base, base + 2^bits) by binary splitting: no unary numbers, usable for
+   domains of a million elements. *)
+Fixpoint sweep_pow (bits : nat) (base : N) (P : N -> bool) : bool :=
+  match bits with
+  | O => P base
+  | S k => sweep_pow k base P && sweep_pow k (base + 2 ^ N.of_nat k) P
+  end.
+
+Lemma sweep_pow_sound bits : forall base P,
+  sweep_pow bits base P = true ->
+  forall a, base <= a -> a < base + 2 ^ N.of_nat bits -> P a = true.
+Proof.
+  induction bits as [|k IH]; intros base P H a Hlo Hhi.
+  - cbn in H. change (2 ^ N.of_nat 0) with 1 in Hhi. replace a with base by lia. exact H.
+  - cbn [sweep_pow] in H. apply andb_true_iff in H. destruct H as [H1 H2].
+    replace (N.of_nat (S k)) with (N.succ (N.of_nat k)) in Hhi by lia.
+    rewrite N.pow_succ_r' in Hhi.
+    destruct (N.ltb_spec a (base + 2 ^ N.of_nat k)) as [Hlt|Hge].
+    + apply (IH base P H1 a Hlo Hlt).
+    + apply (IH _ P H2 a Hge). lia.
+Qed.
